@@ -799,9 +799,21 @@ class QueryObjectDescriptor(SymbolicExpression[T], ABC):
         """
         return any(
             not self.variable_is_bound_or_its_children_are_bound(var, values)
-            for var in self.selected_variables
+            for var in map(self._variable_behind_, self.selected_variables)
             if self.variable_is_inferred(var)
         )
+
+    @staticmethod
+    def _variable_behind_(
+        selected: CanBehaveLikeAVariable[T],
+    ) -> CanBehaveLikeAVariable[T]:
+        """
+        :param selected: A selected expression.
+        :return: The variable that a selected attribute (or index, or call) is taken from, else the expression itself.
+        """
+        while isinstance(selected, DomainMapping):
+            selected = selected._child_
+        return selected
 
     def variable_is_bound_or_its_children_are_bound(
         self, var: CanBehaveLikeAVariable[T], result: OperationResult
